@@ -132,7 +132,9 @@ func runC36(c *Ctx) {
 		c.Check(w == nil && len(lf.Find(cfg)) == 1, "exists-check≺construct", "the cluster-wide existence check precedes the construction of the singleton", c.P.Pos(lit.Pos()), lf.describe(w))
 		fail, n := lf.ErrEdgesOf(pre, true)
 		w = lf.AfterEdgesMayReach(fail, nil, nil, cfg)
-		c.Check(n == 1 && w == nil, "exists⇏construct", "when the name already exists in the cluster nothing is constructed", c.P.Pos(lit.Pos()), lf.describe(w))
+		okPre, _ := lf.ErrEdgesOf(pre, false)
+		wOK := lf.search(searchSpec{avoidEdges: okPre, target: cfg})
+		c.Check(n == 1 && w == nil && wOK == nil && len(okPre) > 0, "exists⇏construct", "the singleton is constructed only over the edge on which the cluster-wide precondition check succeeded", c.P.Pos(lit.Pos()), lf.describe(w)+lf.describe(wOK))
 		// withSingleton option passed
 		hasOpt := false
 		ast.Inspect(lit.Body, func(n ast.Node) bool {
